@@ -37,6 +37,18 @@ CLAIMED["C14"] = dict(
    text="Differential harness: the real decoders (public API, destination packing and scratch arrays starting as arbitrary garbage) against an executable reference model written from the module documentation (harness/ibl_reference.py), both executed by the same engine on the same symbolic instance (sizes 1..10^12) for every signed permutation of up to 3 (thorough 4) items; all six columns of every row and the bin count must agree on every path. Because the reference never reads the garbage, agreement implies independence from earlier decodings; a concrete reuse test of one encoder object and destination is run in addition.",
    note="Trusted: z3; the reference model is my reading of the documentation (kept short, exercised by the doctest examples through the reuse job); numpy/numba model as in C01. Quick tier enumerates permutations up to relabelling of interchangeable rows.",
    design="4/C14")
+CLAIMED["C03"] = dict(
+   text="The optimum is NP-hard, so the solver is the oracle: for every instance of an exhaustive small family (bins W,H<=6 with every 4-multiset of item shapes, W,H<=8 with every triple, W,H<=14 with every pair; 1.4 million instances in the quick tier) the real constructor computes lower_bound_bins, and whenever it exceeds the area bound the query 'exists a feasible packing with rotation into lower_bound_bins-1 bins' (all placements, rotations and bin assignments symbolic) must be unsat; lower_bound_bins >= ceil(area/bin area) is checked on every instance and the constructor's own ceiling arithmetic on symbolic totals. Thorough adds 5-multisets, larger pairs and seeded random instances up to 8 items.",
+   note="The instance side of the quantifier is ENUMERATED (exhaustive small family / seeded sample), said so; the packing side is decided by z3. Trusted: z3, the declarative packing model (witness packings are re-checked by plain Python). Not built: __lb_q/__cutsq on fully symbolic inputs.",
+   design="4/C03")
+CLAIMED["C05"] = dict(
+   text="The real tsp.Instance constructor runs symbolically on an arbitrary n x n matrix (n<=4, thorough 6; entries 0..10^12, symmetric and asymmetric), rejected matrices end their path; on accepting paths the solver shows: stored cell = given cell and fits the chosen dtype (symbolic dtype model), is_symmetric <=> matrix symmetric, and for a symbolic permutation TourLength.evaluate = cyclic edge sum, lower_bound() <= value <= upper_bound(), accumulator within int64.",
+   note="Trusted: z3; int_range_to_dtype threshold model (validated per run); np.copyto('unsafe') modelled as 'fits -> unchanged, else arbitrary value of the dtype'. Outside: n>6, upper_bound_range_multiplier != 1.",
+   design="4/C05")
+CLAIMED["C06"] = dict(
+   text="The real solve() methods of the (1+1) EA and FEA run with a stub process on a symbolic symmetric instance (n<=6, thorough 7): start tour = arbitrary permutation, integers() = arbitrary value, 1-3 loop iterations; every register(x, y) observed must pass a permutation and its exact tour length, the EA's values never increase, every FEA table index lies in 0..upper bound AND inside the table the code allocated (table modelled as a z3 array of the allocated symbolic length). This drives the move filter and both kernels, including i=0 and j=n-2.",
+   note="Trusted: z3 (arrays+LIA), stubs of Process/Generator listed in the evidence. Each iteration starts from an arbitrary (permutation, exact length) pair, so the step covers runs of any length by induction. Outside: asymmetric instances.",
+   design="4/C06")
 NA = {
  "C12": "quantifies over complete optimisation runs (moptipy Execution/Process, RNG streams, log files, budgets): no bounded symbolic encoding within reach; its solver-decidable ingredients are claimed under C01, C02, C04-C06, C19",
 }
